@@ -49,6 +49,10 @@ def summary(qualname):
     return deco
 
 
+class Skip(Exception):
+    """Raised by a unit for a size combination that lies outside its stated domain (not a vacuity error)."""
+
+
 class LoopInv:
     """Loop invariant spec: clauses(S, env, pre, k, lo, hi) -> iterable of (name, cond)."""
 
